@@ -15,6 +15,7 @@ import (
 	"os"
 	"os/exec"
 	"path/filepath"
+	"regexp"
 	"sort"
 	"strings"
 
@@ -36,6 +37,16 @@ type itemMeta struct {
 	sig    string
 	pnames []string
 	inh    *inhWorld
+	// ov: the option-value world the item was generated from (optval.go)
+	ov *ovSpec
+	// optional: slip may reject the session's forms (an option value it does not take): an outcome, not a failure
+	optional bool
+	// accept (by probe index): what the reloaded process may answer besides the session's own answer (S2)
+	accept map[int]*regexp.Regexp
+	// defines: form keys, e.g. "(defun name)", that must be in the snapshot text although no session form has that head
+	defines []string
+	// mayOmit: variables (lower case names) whose value has no load form: the snapshot may leave them out
+	mayOmit []string
 }
 
 var itemMetas = map[string]*itemMeta{}
@@ -52,6 +63,22 @@ func (it *item) probeName(pi int) string {
 		return m.pnames[pi]
 	}
 	return fmt.Sprint(pi + 1)
+}
+
+func (it *item) accepts(pi int, reloaded string) bool {
+	if m := itemMetas[it.id]; m != nil && m.accept != nil {
+		if re := m.accept[pi]; re != nil {
+			return re.MatchString(reloaded)
+		}
+	}
+	return false
+}
+
+func (it *item) ovWorld() *ovSpec {
+	if m := itemMetas[it.id]; m != nil {
+		return m.ov
+	}
+	return nil
 }
 
 func (it *item) inhWorld() *inhWorld {
@@ -265,6 +292,14 @@ func itemByID(id string) *item {
 	if strings.HasPrefix(id, "inh:") {
 		return inhItem(id)
 	}
+	if strings.HasPrefix(id, "ov:") {
+		return ovItem(id)
+	}
+	for _, it := range extItems {
+		if it.id == id {
+			return it
+		}
+	}
 	for _, it := range items {
 		if it.id == id {
 			return it
@@ -365,8 +400,36 @@ func enumerateSnap(tier string, emit func(string)) {
 		optAll = append(optAll, it.id)
 	}
 	out(optAll)
+	// the extended menu (menu2.go): every item alone, all of them together (with and without the values that have no
+	// load form); thorough: every pair of extended items and every extended item with every basic item
+	for _, it := range extItems {
+		if thoroughOnly[it.id] && tier != engine.Thorough {
+			continue
+		}
+		out([]string{it.id})
+	}
+	out(idsOf(extPlain()))
+	out(idsOf(extAll()))
+	if tier == engine.Thorough {
+		for i, a := range extItems {
+			if solo[a.id] {
+				continue
+			}
+			for _, b := range extItems[i+1:] {
+				if solo[b.id] {
+					continue
+				}
+				out([]string{a.id, b.id})
+			}
+			for _, b := range items {
+				out([]string{b.id, a.id})
+			}
+		}
+	}
 	// the inheritance worlds (inherit.go), each a session of its own
 	enumerateInhSnap(tier, out)
+	// the option-value worlds (optval.go), each a session of its own
+	enumerateOvSnap(tier, out)
 }
 
 // ------------------------------------------------------------------ stages
@@ -456,7 +519,7 @@ func execStage(spec string, res *engine.Result) {
 		// the generated inheritance worlds are asked 4 times, the menu sessions 24 times
 		repeats := 23
 		for _, it := range its {
-			if it.inhWorld() != nil {
+			if it.inhWorld() != nil || it.ovWorld() != nil {
 				repeats = 3
 			}
 		}
@@ -512,13 +575,25 @@ func execStage(spec string, res *engine.Result) {
 			res.Fail("harness:snap-file", err.Error())
 			return
 		}
-		for _, f := range splitForms(stripHeader(string(text))) {
+		// (load) evaluates the defun / defmacro / defvar / defparameter / defconstant forms of a file before its other forms;
+		// evaluating in text order instead, a form may only fail because a definition further down is not there yet: a
+		// failing form gets a second chance after all the others
+		var again []int
+		forms := splitForms(stripHeader(string(text)))
+		for i, f := range forms {
 			fo := formOut{Key: formKey(f)}
 			if _, e := lisp.EvalIn(scope, f); e != nil {
 				fo.Err = e.String()
 				fo.ErrClass = errClass(e)
+				again = append(again, i)
 			}
 			out.Forms = append(out.Forms, fo)
+		}
+		for _, i := range again {
+			if _, e := lisp.EvalIn(scope, forms[i]); e == nil {
+				out.Forms[i].Err = ""
+				out.Forms[i].ErrClass = ""
+			}
 		}
 		snapshot(s2)
 	}
@@ -689,7 +764,8 @@ var userNames = map[string]bool{}
 func init() {
 	for _, n := range []string{"*va*", "*pb*", "+kc+", "*vs*", "*vk*", "f1", "f2", "f9", "fw", "m1", "fl1", "cl1", "g1", "pk1", "pv", "pf",
 		"flz", "fla", "fm1", "fm2", "fm3", "fu1", "fu2", "fu3", "*vi*", "*vh*", "*vv*", "*vstr*", "f3",
-		"rf1", "rm1", "*rv*", "*rp*", "rg1", "rc1", "rfl", "*gq*", "gq1", "ih-g", "ih-ra", "ih-rb", "ih-t"} {
+		"rf1", "rm1", "*rv*", "*rp*", "rg1", "rc1", "rfl", "*gq*", "gq1", "ih-g", "ih-ra", "ih-rb", "ih-t",
+		"ov-c", "ov-f", "*ov-v*", "+ov-k+", "ov-p", "ov-c-s"} {
 		userNames[n] = true
 	}
 }
@@ -737,6 +813,15 @@ func formKey(f string) string {
 		name := target
 		if i := strings.LastIndex(name, "::"); 0 <= i {
 			name = name[i+2:]
+		}
+		if strings.HasPrefix(name, "*nf-") {
+			// the variables of the sessions holding a value without a load form: the kind of value is not part of a signature
+			for _, mid := range []string{"before", "list", "zz-after"} {
+				if strings.HasPrefix(name, "*nf-"+mid+"-") {
+					return "(" + head + " common-lisp-user::*nf-" + mid + "*)"
+				}
+			}
+			return "(" + head + " common-lisp-user::*nf-value*)"
 		}
 		if !userNames[name] && !strings.HasPrefix(target, "common-lisp::") && !strings.HasPrefix(target, "bag::") &&
 			!strings.HasPrefix(target, "net::") && !strings.HasPrefix(target, "swank::") && !strings.HasPrefix(target, "gi::") {
@@ -832,6 +917,28 @@ func execSnap(spec string, res *engine.Result) {
 			}
 		}
 	}
+	optional := false
+	for _, it := range its {
+		if sp := it.ovWorld(); sp != nil {
+			res.Hit("snap-optval-session")
+			res.Hit("snap-optval-session:" + sp.tmpl.kind)
+			if sp.critical() {
+				res.Hit("snap-optval-critical-value")
+			}
+			if sp.val == nil {
+				res.Hit("snap-optval-absent-twin")
+			}
+		}
+		if m := itemMetas[it.id]; m != nil && m.optional {
+			optional = true
+		}
+		if unencodable[it.id] {
+			res.Hit("snap-ext-value-without-load-form")
+		}
+	}
+	if 0 < len(its) && itemIsExt(its[0]) {
+		res.Hit("snap-ext-session")
+	}
 	childSeq++
 	dir := filepath.Join("/verif/.build/scratch/C19", fmt.Sprintf("s%d-%d-%x", os.Getpid(), childSeq, engine.Hash64(spec)))
 	if err := os.MkdirAll(dir, 0o755); err != nil {
@@ -842,10 +949,20 @@ func execSnap(spec string, res *engine.Result) {
 
 	o1, fail := runChild("stage1|" + session + "|" + dir)
 	if fail != "" {
+		if strings.Contains(fail, "stack overflow") || strings.Contains(fail, "goroutine stack exceeds") {
+			// not a condition: the Go runtime ends the process
+			res.Fail("snap stage=first-process snapshot-fatal err=stack-overflow", fmt.Sprintf("session [%s]: the process that evaluates the session and calls (snapshot file) dies: %s", session, clip(fail, 300)))
+			return
+		}
 		res.Fail("snap stage=first-process child-failed", fail)
 		return
 	}
 	if 0 < len(o1.Setup) {
+		if optional {
+			res.Hit("snap-optval-rejected-by-slip")
+			res.Outcome = "rejected-by-slip " + strings.Join(o1.Setup, "; ")
+			return
+		}
 		res.Fail("harness:snap-setup-failed", strings.Join(o1.Setup, "; "))
 		return
 	}
@@ -966,6 +1083,16 @@ func execSnap(spec string, res *engine.Result) {
 			if it.inhWorld() != nil {
 				res.Hit("snap-inherit-probes-compared")
 			}
+			if it.ovWorld() != nil {
+				res.Hit("snap-optval-probes-compared")
+			}
+			if itemIsExt(it) {
+				res.Hit("snap-ext-probes-compared")
+			}
+			if normDocs(a) != normDocs(b) && it.accepts(pi, b) {
+				res.Hit("snap-accepted-alternative")
+				continue
+			}
 			if normDocs(a) != normDocs(b) {
 				sig := fmt.Sprintf("snap probe-differs item=%s probe=%s original=%s reloaded=%s", it.sigName(), it.probeName(pi), probeKind(a), probeKind(b))
 				if probeSeen[sig] {
@@ -1020,6 +1147,9 @@ func execSnap(spec string, res *engine.Result) {
 							break
 						}
 					}
+				}
+				if other != "" && strings.Join(strings.Fields(f), " ") == strings.Join(strings.Fields(strings.TrimPrefix(other, "; second snapshot has ")), " ") {
+					other += " (the two differ in white space only: " + whiteSpaceDiff(f, forms2) + ")"
 				}
 				res.Fail(sig, fmt.Sprintf("session [%s] (%s mode): first snapshot form %s%s", session, mode, clip(f, 300), other))
 			}
@@ -1081,10 +1211,27 @@ func execSnap(spec string, res *engine.Result) {
 	// the session's definitions must be present in the first snapshot
 	absentSeen := map[string]bool{}
 	for _, it := range its {
-		for _, src := range it.src {
+		srcs := it.src
+		var omit []string
+		if m := itemMetas[it.id]; m != nil {
+			for _, k := range m.defines {
+				srcs = append(append([]string(nil), srcs...), k)
+			}
+			omit = m.mayOmit
+		}
+		for _, src := range srcs {
 			key := formKey(src)
 			want := definedName(src)
 			if want == "" {
+				continue
+			}
+			skip := false
+			for _, o := range omit {
+				// compared the way signatures name a variable (formKey folds the names of the values without a load form)
+				ok := formKey("(defvar "+o+")")
+				skip = skip || o == want || strings.TrimSuffix(strings.TrimPrefix(ok, "(defvar "), ")") == want
+			}
+			if skip {
 				continue
 			}
 			found := false
@@ -1108,6 +1255,33 @@ func execSnap(spec string, res *engine.Result) {
 	res.Outcome = strings.Join(outc, " | ")
 }
 
+// whiteSpaceDiff shows the first line of f that the form with the same words in forms2 has differently.
+func whiteSpaceDiff(f string, forms2 []string) string {
+	words := strings.Join(strings.Fields(f), " ")
+	for _, g := range forms2 {
+		if strings.Join(strings.Fields(g), " ") != words {
+			continue
+		}
+		a, b := strings.Split(f, "\n"), strings.Split(g, "\n")
+		for i := 0; i < len(a) && i < len(b); i++ {
+			if a[i] != b[i] {
+				return fmt.Sprintf("line %d %q vs %q", i+1, a[i], b[i])
+			}
+		}
+		return fmt.Sprintf("%d vs %d lines", len(a), len(b))
+	}
+	return ""
+}
+
+func itemIsExt(it *item) bool {
+	for _, e := range extItems {
+		if e == it {
+			return true
+		}
+	}
+	return false
+}
+
 func clip(s string, n int) string {
 	s = strings.Join(strings.Fields(s), " ")
 	if n < len(s) {
@@ -1125,7 +1299,7 @@ func definedName(src string) string {
 		return ""
 	}
 	switch parts[0] {
-	case "defvar", "defparameter", "defconstant", "setq", "defun", "defmacro", "defflavor", "defclass", "defgeneric", "defpackage", "defmethod":
+	case "defvar", "defparameter", "defconstant", "setq", "defun", "defmacro", "defflavor", "defclass", "defgeneric", "defpackage", "defmethod", "define-condition":
 		return parts[1]
 	}
 	return "" // not a defining form (remove-method ...)
@@ -1150,8 +1324,8 @@ func mentionsDefinition(f, key, name string) bool {
 		return (strings.HasPrefix(fk, "(defgeneric "+n) || strings.HasPrefix(fk, "(defmethod "+n)) && strings.Contains(lf, ":method") ||
 			strings.HasPrefix(fk, "(defmethod "+n)
 	}
-	for _, h := range []string{"defvar", "defparameter", "defconstant", "setq", "defun", "defmacro", "defflavor", "defclass", "defgeneric", "defpackage"} {
-		for _, q := range []string{n, "common-lisp-user::" + n, "pk1::" + n} {
+	for _, h := range []string{"defvar", "defparameter", "defconstant", "setq", "defun", "defmacro", "defflavor", "defclass", "defgeneric", "defpackage", "define-condition"} {
+		for _, q := range []string{n, "common-lisp-user::" + n, "pk1::" + n, "upa::" + n, "upb::" + n, "upc::" + n, "upd::" + n, "upe::" + n, "zzlib::" + n, "aaapp::" + n} {
 			if fk == "("+h+" "+q+")" {
 				return true
 			}
@@ -1168,10 +1342,17 @@ func sigMsg(msg string) string {
 		msg = msg[i+2:]
 	}
 	var b strings.Builder
+	digits := false
 	for _, r := range strings.Join(strings.Fields(msg), "_") {
 		if '0' <= r && r <= '9' {
-			r = 'N'
+			// a run of digits (a position in the file, part of a name) is one N
+			if !digits {
+				b.WriteRune('N')
+			}
+			digits = true
+			continue
 		}
+		digits = false
 		b.WriteRune(r)
 	}
 	out := b.String()
